@@ -17,6 +17,7 @@ EXTENDS AvroEncoding, TLC, FiniteSets
 CONSTANTS MaxBytes,    \* length of byte strings / strings
           MaxItems,    \* items per array / map
           MaxRaw,      \* length of raw byte strings in "bytes" mode
+          Deep,        \* TRUE: also the widest nested record schema
           Modes
 
 SeqsUpTo(S, n) == UNION {[1..k -> S] : k \in 0..n}
@@ -44,7 +45,8 @@ Schemas == {
   Record(<<SLong, Opt(Strg), Bool>>), Record(<<>>), Record(<<Dbl, Record(<<SInt, OptLast(Byts)>>)>>),
   Union(<<SLong, Strg, Null, Array(Bool)>>), Union(<<Null, SInt, SLong>>),
   Array(Record(<<Bool, Opt(Sch("enum", 2, <<>>))>>)),
-  Record(<<Array(Array(Bool)), Map(Opt(Bool)), Union(<<Strg, Byts>>)>>) }
+  Record(<<Array(Array(Bool)), Union(<<Strg, Byts>>)>>), Record(<<Map(Opt(Bool)), OptLast(SLong)>>) }
+  \cup (IF Deep THEN {Record(<<Array(Array(Bool)), Map(Opt(Bool)), Union(<<Strg, Byts>>)>>)} ELSE {})
 
 RECURSIVE Vals(_, _), Prod(_, _, _)
 (* the values of schema s; `top`: the full boundary sets (nested positions use reduced sets) *)
